@@ -214,6 +214,24 @@ func (r *Rec) loadKnown() {
 	}
 }
 
+// KnownInline lets a property tolerate a listed known finding in the middle of a case and go on
+// checking behind it: it returns true (and counts the hit) when sig is listed in KNOWN_FINDINGS.txt.
+// In replay mode nothing is listed, so the finding is reported.
+func (r *Rec) KnownInline(sig, msg string) bool {
+	if _, ok := r.known[sig]; !ok {
+		return false
+	}
+	r.mu.Lock()
+	h := r.hits[sig]
+	if h == nil {
+		h = &knownHit{Msg: msg}
+		r.hits[sig] = h
+	}
+	h.Count++
+	r.mu.Unlock()
+	return true
+}
+
 // Quick reports whether this is the quick tier.
 func (r *Rec) Quick() bool { return r.Tier != "thorough" }
 
